@@ -684,7 +684,7 @@ pub mod abi_sweep {
         let fd: &'static a10::AsyncFd = if use_direct { w.env.as_ref().unwrap().dfd.unwrap() } else { w.env.as_ref().unwrap().fd };
         let raw_fd: i64 = crate::ops::raw_of(fd);
         let fixed = if use_direct { u64::from(IOSQE_FIXED_FILE) } else { 0 };
-        let which = rng.below(27);
+        let which = rng.below(31);
         let mut exp: Expect = Vec::new();
         let mut strings: Vec<(&'static str, Vec<u8>, Box<dyn Fn(&Sqe) -> u64>)> = Vec::new();
         let mut name: &'static str = "?";
@@ -732,9 +732,11 @@ pub mod abi_sweep {
                 exp.push(field("opcode", u64::from(OP_SOCKET), |s| u64::from(s.opcode())));
                 exp.push(field("domain (fd)", draw as u64, |s| s.fd() as u64));
                 exp.push(field("type|cloexec (off)", (traw | if direct { 0 } else { libc::SOCK_CLOEXEC }) as u64, |s| s.off()));
-                exp.push(field("protocol (len)", 0, |s| u64::from(s.len())));
+                let protos = [(None, 0), (Some(a10::net::Protocol::TCP), libc::IPPROTO_TCP), (Some(a10::net::Protocol::UDP), libc::IPPROTO_UDP), (Some(a10::net::Protocol::ICMPV6), libc::IPPROTO_ICMPV6)];
+                let (proto, praw) = protos[rng.below(4) as usize];
+                exp.push(field("protocol (len)", praw as u64, |s| u64::from(s.len())));
                 exp.push(field("file_index", if direct { u64::from(FILE_INDEX_ALLOC) } else { 0 }, |s| u64::from(s.file_index())));
-                let f = a10::net::socket(sq.clone(), d, t, None);
+                let f = a10::net::socket(sq.clone(), d, t, proto);
                 let f = if direct { f.kind(Kind::Direct) } else { f };
                 fut_op(f, unit)
             }
@@ -981,6 +983,42 @@ pub mod abi_sweep {
                     Err(e) => Outcome::err(&e),
                 };
                 if recv { fut_op(fd.recv(pool.get()), map) } else { fut_op(fd.read(pool.get()), map) }
+            }
+            24 | 25 => {
+                // Multishot reads/receives: pool buffers selected by the kernel for every item.
+                let recv = which == 25;
+                name = if recv { "multishot_recv" } else { "multishot_read" };
+                let pool = w.env.as_ref().unwrap().pool.as_ref().unwrap().clone();
+                exp.push(field("opcode", u64::from(if recv { OP_RECV } else { OP_READ_MULTISHOT }), |s| u64::from(s.opcode())));
+                exp.push(field("fd", raw_fd as u64, |s| s.fd() as u64));
+                exp.push(field("flags (exactly)", fixed | u64::from(IOSQE_BUFFER_SELECT), |s| u64::from(s.flags())));
+                if recv {
+                    exp.push(field("ioprio (multishot)", u64::from(RECV_MULTISHOT), |s| u64::from(s.ioprio() & RECV_MULTISHOT)));
+                }
+                let map = |r: std::io::Result<a10::io::ReadBuf>| match r {
+                    Ok(b) => {
+                        let mut o = Outcome::ok(b.len() as i64);
+                        o.rbufs.push(b);
+                        o
+                    }
+                    Err(e) => Outcome::err(&e),
+                };
+                if recv { iter_op(fd.multishot_recv(pool), |it, cx| it.poll_next(cx), map) } else { iter_op(fd.multishot_read(pool), |it, cx| it.poll_next(cx), map) }
+            }
+            26 if use_direct => {
+                name = "to_file_descriptor";
+                exp.push(field("opcode", u64::from(OP_FIXED_FD_INSTALL), |s| u64::from(s.opcode())));
+                exp.push(field("fd (index)", raw_fd as u64, |s| s.fd() as u64));
+                exp.push(field("install flags", 0, |s| u64::from(s.op_flags())));
+                exp.push(field("flags (exactly)", fixed, |s| u64::from(s.flags())));
+                fut_op(fd.to_file_descriptor(), |r: std::io::Result<a10::AsyncFd>| match r {
+                    Ok(a) => {
+                        let mut o = Outcome::ok(crate::ops::raw_of(&a));
+                        o.afds.push(a);
+                        o
+                    }
+                    Err(e) => Outcome::err(&e),
+                })
             }
             21 => {
                 name = "multishot_accept";
